@@ -1,0 +1,23 @@
+//go:build verif
+
+package dart
+
+// Contracts for the deductive verifier in /verif (govc). Comment-only file: with or without
+// the `verif` build tag it adds no declaration to the package.
+
+// ---------------------------------------------------------------- C09
+// skip lemma: a field that is not Exported() (unexported, json:"-" or gomacro:"ignore") leaves the loop
+// state untouched, so adding, removing or retyping such a field cannot change what the loop builds
+
+//@ func jsonForStruct
+//@   props C09
+//@   requires st != nil && (forall i int :: 0 <= i && i < len(st.Fields) ==> st.Fields[i].Field != nil)
+//@   modifies *
+//@   loop st.Fields.1 endassert !field.Exported() ==> fieldsFrom == athead(fieldsFrom) && fieldsTo == athead(fieldsTo)
+
+//@ func buffer.codeForStruct
+//@   props C09
+//@   requires typ != nil && (forall i int :: 0 <= i && i < len(typ.Fields) ==> typ.Fields[i].Field != nil)
+//@   requires forall i int :: 0 <= i && i < len(typ.Implements) ==> typ.Implements[i] != nil
+//@   modifies *
+//@   loop typ.Fields.1 endassert !field.Exported() ==> fields == athead(fields) && initFields == athead(initFields) && interpolatedFields == athead(interpolatedFields) && importForFields == athead(importForFields)
